@@ -74,8 +74,18 @@ func resolve(expr string, p Params) uint64 {
 	return v
 }
 
+// pinned keeps every Params map that was ever used as a cache key alive, so that its address can
+// never be reused by another map (a stale descriptor with another preset's limits would be returned).
+var pinned sync.Map
+
 func describe(t reflect.Type, tag string, p Params) *desc {
-	key := cacheKey{t, tag, reflect.ValueOf(p).Pointer()}
+	ptr := reflect.ValueOf(p).Pointer()
+	if p != nil {
+		if _, ok := pinned.Load(ptr); !ok {
+			pinned.Store(ptr, p)
+		}
+	}
+	key := cacheKey{t, tag, ptr}
 	if d, ok := cache.Load(key); ok {
 		return d.(*desc)
 	}
@@ -625,3 +635,348 @@ func Copy(dst, src interface{}, p Params) {
 		panic("refssz: copy failed: " + err.Error())
 	}
 }
+
+// ---- top-level values of non-struct types (lists, bitfields, basic types) with an explicit tag
+
+func EncodeAs(v interface{}, tag string, p Params) []byte {
+	rv := reflect.ValueOf(v)
+	if rv.Kind() == reflect.Ptr {
+		rv = rv.Elem()
+	}
+	return encode(describe(rv.Type(), tag, p), rv, nil)
+}
+
+func DecodeAs(b []byte, ptr interface{}, tag string, p Params) error {
+	rv := reflect.ValueOf(ptr).Elem()
+	return decode(describe(rv.Type(), tag, p), b, rv)
+}
+
+func RootAs(v interface{}, tag string, p Params) Hash {
+	rv := reflect.ValueOf(v)
+	if rv.Kind() == reflect.Ptr {
+		rv = rv.Elem()
+	}
+	return root(describe(rv.Type(), tag, p), rv)
+}
+
+func FixedSizeAs(v interface{}, tag string, p Params) (uint64, bool) {
+	t := reflect.TypeOf(v)
+	if t.Kind() == reflect.Ptr {
+		t = t.Elem()
+	}
+	return describe(t, tag, p).fixedSize()
+}
+
+// ---- bounded value enumeration over a schema (used by C04/C05/C15)
+
+// Leaf: one mutable position of a value: a basic leaf or the length of a list/bitlist.
+type Leaf struct {
+	Path string
+	// Set puts the i-th alternative (0 <= i < N) into a fresh copy of the zero value.
+	N   int
+	set func(root reflect.Value, alt int)
+}
+
+// Shape enumerates the leaves of the ZERO value of type (t, tag): every basic leaf (alternatives:
+// 1, max, position-unique pattern), every list length (alternatives: 1, 2, limit if <= maxLen),
+// every bitlist length (0 is the zero value; alternatives 1, 7, 8, 9, limit if <= maxLen).
+// Elements of lists that are empty in the zero value are reached by the length alternatives, whose
+// new elements are filled with a position-unique pattern.
+type Gen struct {
+	d      *desc
+	p      Params
+	maxLen uint64
+}
+
+func NewGen(sample interface{}, tag string, p Params, maxLen uint64) *Gen {
+	t := reflect.TypeOf(sample)
+	if t.Kind() == reflect.Ptr {
+		t = t.Elem()
+	}
+	return &Gen{d: describe(t, tag, p), p: p, maxLen: maxLen}
+}
+
+// Zero returns a pointer to the zero value (vectors at their fixed length, lists empty).
+func (g *Gen) Zero() reflect.Value {
+	v := reflect.New(g.d.typ).Elem()
+	fillZero(g.d, v)
+	return v.Addr()
+}
+
+func fillZero(d *desc, v reflect.Value) {
+	switch d.kind {
+	case kByteVector:
+		v.SetBytes(make([]byte, d.n))
+	case kBitvector:
+		v.Set(reflect.MakeSlice(v.Type(), int(d.n), int(d.n)))
+	case kVector:
+		s := reflect.MakeSlice(v.Type(), int(d.n), int(d.n))
+		for i := 0; i < int(d.n); i++ {
+			fillZero(d.elem, s.Index(i))
+		}
+		v.Set(s)
+	case kContainer:
+		fi := 0
+		for i := 0; i < v.NumField(); i++ {
+			if v.Type().Field(i).Tag.Get("ssz") == "-" {
+				continue
+			}
+			fillZero(d.fields[fi], v.Field(i))
+			fi++
+		}
+	}
+}
+
+// pattern fills v (of descriptor d) with a value derived from seed so that different positions get
+// different contents ("all leaves distinct").
+func pattern(d *desc, v reflect.Value, seed *uint64, listLen int) {
+	next := func() uint64 { *seed = *seed*6364136223846793005 + 1442695040888963407; return *seed >> 16 }
+	switch d.kind {
+	case kUint:
+		x := next()
+		if d.size < 8 {
+			x &= (1 << (8 * d.size)) - 1
+		}
+		v.SetUint(x)
+	case kBool:
+		v.SetBool(next()&1 == 1)
+	case kBytesN:
+		for i := 0; i < v.Len(); i++ {
+			v.Index(i).SetUint(next() & 0xff)
+		}
+	case kByteList:
+		n := listLen
+		if uint64(n) > d.n {
+			n = int(d.n)
+		}
+		b := make([]byte, n)
+		for i := range b {
+			b[i] = byte(next())
+		}
+		v.SetBytes(b)
+	case kByteVector:
+		b := make([]byte, d.n)
+		for i := range b {
+			b[i] = byte(next())
+		}
+		v.SetBytes(b)
+	case kBitvector, kBitlist:
+		n := int(d.n)
+		if d.kind == kBitlist {
+			n = listLen
+			if uint64(n) > d.n {
+				n = int(d.n)
+			}
+		}
+		s := reflect.MakeSlice(v.Type(), n, n)
+		for i := 0; i < n; i++ {
+			s.Index(i).SetBool(next()&1 == 1)
+		}
+		v.Set(s)
+	case kList, kVector:
+		n := int(d.n)
+		if d.kind == kList {
+			n = listLen
+			if uint64(n) > d.n {
+				n = int(d.n)
+			}
+		}
+		s := reflect.MakeSlice(v.Type(), n, n)
+		for i := 0; i < n; i++ {
+			pattern(d.elem, s.Index(i), seed, listLen)
+		}
+		v.Set(s)
+	case kContainer:
+		fi := 0
+		for i := 0; i < v.NumField(); i++ {
+			if v.Type().Field(i).Tag.Get("ssz") == "-" {
+				continue
+			}
+			pattern(d.fields[fi], v.Field(i), seed, listLen)
+			fi++
+		}
+	}
+}
+
+// Distinct returns a value with every leaf set to a different pattern and every list holding
+// listLen elements (capped by its limit).
+func (g *Gen) Distinct(seed uint64, listLen int) reflect.Value {
+	v := reflect.New(g.d.typ).Elem()
+	s := seed
+	pattern(g.d, v, &s, listLen)
+	return v.Addr()
+}
+
+type leafRef struct {
+	path string
+	n    int
+	set  func(root reflect.Value, alt int)
+}
+
+// Leaves lists the deviation points of the zero value.
+func (g *Gen) Leaves() []leafRef {
+	var out []leafRef
+	var walk func(d *desc, path string, get func(root reflect.Value) reflect.Value, depthBudget int)
+	walk = func(d *desc, path string, get func(root reflect.Value) reflect.Value, budget int) {
+		switch d.kind {
+		case kUint:
+			max := ^uint64(0)
+			if d.size < 8 {
+				max = (1 << (8 * d.size)) - 1
+			}
+			out = append(out, leafRef{path, 3, func(r reflect.Value, alt int) {
+				get(r).SetUint([]uint64{1, max, 0x0102030405060708 & max}[alt])
+			}})
+		case kBool:
+			out = append(out, leafRef{path, 1, func(r reflect.Value, alt int) { get(r).SetBool(true) }})
+		case kBytesN:
+			out = append(out, leafRef{path, 3, func(r reflect.Value, alt int) {
+				v := get(r)
+				for i := 0; i < v.Len(); i++ {
+					v.Index(i).SetUint([]uint64{uint64(i&1) ^ 1, 0xff, uint64(i*7+3) & 0xff}[alt])
+				}
+			}})
+		case kByteVector:
+			out = append(out, leafRef{path, 2, func(r reflect.Value, alt int) {
+				b := make([]byte, d.n)
+				for i := range b {
+					b[i] = []byte{0xff, byte(i*5 + 1)}[alt]
+				}
+				get(r).SetBytes(b)
+			}})
+		case kByteList:
+			lens := []uint64{1, 2, 31, 32, 33}
+			if d.n <= g.maxLen {
+				lens = append(lens, d.n)
+			}
+			var ok []uint64
+			for _, l := range lens {
+				if l <= d.n {
+					ok = append(ok, l)
+				}
+			}
+			out = append(out, leafRef{path + ".len", len(ok), func(r reflect.Value, alt int) {
+				b := make([]byte, ok[alt])
+				for i := range b {
+					b[i] = byte(i*3 + 1)
+				}
+				get(r).SetBytes(b)
+			}})
+		case kBitvector:
+			out = append(out, leafRef{path, 3, func(r reflect.Value, alt int) {
+				v := get(r)
+				for i := 0; i < v.Len(); i++ {
+					v.Index(i).SetBool([]bool{i == 0, true, i == v.Len()-1}[alt])
+				}
+			}})
+		case kBitlist:
+			lens := []uint64{1, 7, 8, 9}
+			if d.n <= g.maxLen {
+				lens = append(lens, d.n)
+			}
+			var ok []uint64
+			for _, l := range lens {
+				if l <= d.n {
+					ok = append(ok, l)
+				}
+			}
+			// each length with all-zero bits and with all-one bits
+			out = append(out, leafRef{path + ".len", 2 * len(ok), func(r reflect.Value, alt int) {
+				n := int(ok[alt/2])
+				s := reflect.MakeSlice(get(r).Type(), n, n)
+				for i := 0; i < n; i++ {
+					s.Index(i).SetBool(alt%2 == 1)
+				}
+				get(r).Set(s)
+			}})
+		case kVector:
+			// first, middle... keep it bounded: first and last element
+			idxs := []int{0}
+			if d.n > 1 {
+				idxs = append(idxs, int(d.n)-1)
+			}
+			for _, i := range idxs {
+				i := i
+				walk(d.elem, fmt.Sprintf("%s[%d]", path, i), func(r reflect.Value) reflect.Value { return get(r).Index(i) }, budget)
+			}
+		case kList:
+			lens := []uint64{1, 2}
+			if d.n <= g.maxLen && d.n > 2 {
+				lens = append(lens, d.n)
+			}
+			var ok []uint64
+			for _, l := range lens {
+				if l <= d.n {
+					ok = append(ok, l)
+				}
+			}
+			out = append(out, leafRef{path + ".len", len(ok), func(r reflect.Value, alt int) {
+				n := int(ok[alt])
+				s := reflect.MakeSlice(get(r).Type(), n, n)
+				seed := uint64(len(path)*131 + alt)
+				for i := 0; i < n; i++ {
+					fillZero(d.elem, s.Index(i))
+					pattern(d.elem, s.Index(i), &seed, 1)
+				}
+				get(r).Set(s)
+			}})
+		case kContainer:
+			gi := []int{}
+			for i := 0; i < d.typ.NumField(); i++ {
+				if d.typ.Field(i).Tag.Get("ssz") != "-" {
+					gi = append(gi, i)
+				}
+			}
+			for fi, f := range d.fields {
+				idx := gi[fi]
+				walk(f, path+"."+d.names[fi], func(r reflect.Value) reflect.Value { return get(r).Field(idx) }, budget)
+			}
+		}
+	}
+	walk(g.d, "", func(r reflect.Value) reflect.Value { return r.Elem() }, 0)
+	return out
+}
+
+// Values enumerates: the zero value, every single deviation, optionally every pair of deviations
+// (on different leaves), and two "all leaves distinct" values. f receives a pointer value.
+func (g *Gen) Values(pairs bool, f func(desc string, ptr reflect.Value)) {
+	f("zero", g.Zero())
+	leaves := g.Leaves()
+	for _, l := range leaves {
+		for a := 0; a < l.n; a++ {
+			v := g.Zero()
+			l.set(v, a)
+			f(fmt.Sprintf("%s#%d", l.path, a), v)
+		}
+	}
+	if pairs {
+		for i, l1 := range leaves {
+			for j := i + 1; j < len(leaves); j++ {
+				l2 := leaves[j]
+				if strings.HasPrefix(l2.path, l1.path) && strings.HasSuffix(l1.path, ".len") {
+					continue
+				}
+				v := g.Zero()
+				l1.set(v, l1.n-1)
+				l2.set(v, 0)
+				f(fmt.Sprintf("%s+%s", l1.path, l2.path), v)
+			}
+		}
+	}
+	f("distinct/1", g.Distinct(1, 1))
+	f("distinct/2", g.Distinct(7, 2))
+	f("distinct/3", g.Distinct(99, 3))
+}
+
+// NumLeaves: size indicator.
+func (g *Gen) NumLeaves() int { return len(g.Leaves()) }
+
+// EncodeV / RootV / DecodeV for generated values (pointer reflect.Value).
+func (g *Gen) Encode(ptr reflect.Value) []byte { return encode(g.d, ptr.Elem(), nil) }
+func (g *Gen) Root(ptr reflect.Value) Hash     { return root(g.d, ptr.Elem()) }
+func (g *Gen) Decode(b []byte) (reflect.Value, error) {
+	v := reflect.New(g.d.typ)
+	err := decode(g.d, b, v.Elem())
+	return v, err
+}
+func (g *Gen) FixedSize() (uint64, bool) { return g.d.fixedSize() }
